@@ -44,6 +44,25 @@ MANIFEST = {
                  "decoders, outcomes validated against the contract trace spec DecoderTrace.tla",
 }
 
+# alternative structures the decoders accept; each must be present in at least one seed, as
+# measured by the independent walker harness/internal/mutate/formats.go (not asserted by the builders)
+REQUIRED_FORMATS = [
+    "cff:simple", "cff:CID-keyed", "cff:charset-format0", "cff:charset-format1", "cff:charset-format2",
+    "cff:charset-predefined0", "cff:charset-predefined1", "cff:encoding-format0", "cff:encoding-format1",
+    "cff:encoding-supplement", "cff:encoding-predefined0", "cff:encoding-predefined1", "cff:FDSelect-format0",
+    "cff:FDSelect-format3", "cff:INDEX-offSize1", "cff:INDEX-offSize2", "cff:INDEX-offSize3", "cff:INDEX-offSize4",
+    "cff:local-subrs", "cff:global-subrs", "cff:custom-strings",
+    "cmap:format0", "cmap:format4", "cmap:format4-glyphIdArray", "cmap:format6", "cmap:format12",
+    "coverage:1", "coverage:2", "classdef:1", "classdef:2", "loca:short", "loca:long",
+    "glyf:simple", "glyf:composite", "glyf:empty", "post:1.0", "post:2.0", "post:3.0", "kern:subtable-format0",
+    "GDEF:glyphClassDef", "GDEF:markAttachClassDef", "GDEF:markGlyphSets", "GSUB:useMarkFilteringSet",
+    "GSUB:1.1", "GSUB:1.2", "GSUB:2.1", "GSUB:3.1", "GSUB:4.1", "GSUB:5.1", "GSUB:5.2", "GSUB:5.3", "GSUB:6.1",
+    "GSUB:6.2", "GSUB:6.3", "GSUB:7.1(extension->1.1)", "GSUB:8.1",
+    "GPOS:1.1", "GPOS:1.2", "GPOS:2.1", "GPOS:2.2", "GPOS:3.1", "GPOS:4.1", "GPOS:5.1", "GPOS:6.1", "GPOS:7.1",
+    "GPOS:7.2", "GPOS:7.3", "GPOS:8.1", "GPOS:8.2", "GPOS:8.3", "GPOS:9.1(extension->1.1)",
+    "sfnt:scaler-00010000", "sfnt:scaler-4f54544f", "maxp:0.5", "maxp:1.0",
+]
+
 PROVED = {"cmap", "cmap4", "cmap4seg", "cmap12", "index", "loca", "cover", "classdef"}
 NOT_REPLAYED = {"cmap4seg", "cmap12", "cover"}
 
@@ -153,6 +172,10 @@ def _mutant_bytes(seeds_by_id, sdir, ev):
         d[idx] ^= 0x80
     elif k == "ff":
         d[idx] = 0xFF
+    elif k == "inc":
+        d[idx] = (d[idx] + 1) & 255
+    elif k == "dec":
+        d[idx] = (d[idx] - 1) & 255
     elif k == "drop":
         n = (d[4] << 8) | d[5]
         d[12 + 16 * idx:12 + 16 * n] = d[12 + 16 * (idx + 1):12 + 16 * n] + bytes(16)
@@ -171,6 +194,10 @@ def run(ctx):
         maxmlen = int(os.environ["C02_MAXMLEN"])
     if maxmlen:
         env["C02_MAXMLEN"] = str(maxmlen)
+    # whole fonts above 32 KiB (Go Regular, ~14 ms per mutant): quick mutates the directory region only
+    bigmlen = int(os.environ.get("C02_BIGMLEN", ctx.pick(256, 0)))
+    if bigmlen:
+        env["C02_BIGMLEN"] = str(bigmlen)
     ctx.assumptions += [
         "the contract constant of the allocation bound is 16 MiB (Decoder.tla BudgetKiB): a well-formed 32-byte cmap "
         "format-4 subtable mapping the whole BMP makes sfnt.Read allocate 7-9 MiB (it is decoded several times), which "
@@ -258,6 +285,14 @@ def run(ctx):
     ctx.run([binp, "seeds", sdir], env=env, timeout=300)
     seeds = vlib.read_ndjson(os.path.join(sdir, "seeds.ndjson"))
     by_id = {s["id"]: s for s in seeds}
+    present = {}
+    for sd in seeds:
+        for f in sd.get("formats") or []:
+            present[f] = present.get(f, 0) + 1
+    ctx.cov["formats_present"] = dict(sorted(present.items()))
+    missing = [f for f in REQUIRED_FORMATS if f not in present]
+    if missing:
+        raise vlib.Infra("the seeds lack structures the decoders accept (format walker): %s" % ", ".join(missing))
     seeds_mod = _seeds_module(seeds)
     pl = ctx.tlc("DecoderPlan", files={"C02Seeds.tla": seeds_mod}, workers=1, timeout=900,
                  label="DecoderPlan (plan generation)")
@@ -289,15 +324,19 @@ def run(ctx):
     ctx.cov["bounds"].update({
         "seeds": len(seeds), "cells": len(plan), "mutants": planned,
         "mutated_prefix_limit": maxmlen or "none",
+        "mutated_prefix_limit_whole_fonts_over_32KiB": bigmlen or "as above",
         "decoders": sorted(set(s["dec"] for s in seeds)),
         "outcomes": tot, "accessor_calls_ok": tot["nacc"],
-        "exhaustive_means": "every truncation length, aligned word x 10 values, byte flip/0xFF and table deletion of "
+        "exhaustive_means": "every truncation length, aligned word x 10 values, byte flip/0xFF/+1/-1 and table deletion of "
                             "the stated seeds below the mutated-prefix limit; guard models: all field values at the stated word size",
     })
     good = [e for e in evs if e["ev"] == "mut" and e["outcome"] in ("value", "error") and not e["badacc"]]
     if good:
         ctx.sample({"recorded_mutant": good[len(good) // 2]})
     worst = max(cells, key=lambda c: c["worstKiB"] * 16 - c["worstLen"])
+    not_value = [by_id[c["seed"]]["name"] for c in cells if c["kind"] == "orig" and c["nvalue"] != 1]
+    if not_value:
+        ctx.notes.append("seeds that do not decode to a value unmutated: " + ", ".join(not_value))
     ctx.notes.append("largest allocation relative to the bound: %d KiB for %d bytes (seed %s, %s)" % (
         worst["worstKiB"], worst["worstLen"], by_id[worst["seed"]]["name"], worst["kind"]))
 
